@@ -209,6 +209,16 @@ func (g *Gen) randBatch(name string, cfg batchCfg) *BatchSpec {
 				// the term-vector option stated independently of what the analysis delivered
 				f.TV = g.pick([]string{"0", "1"})
 			}
+			if g.chance(0.08) {
+				// a geo-shape field: its encoded shape is kept as one more doc value of the document,
+				// with or without terms (a field with shapes but not one term in a whole segment lost
+				// them in a merge: defect D11, corpus/regress/k1_shape_only_field_merge.script)
+				n := g.r.Intn(7)
+				f.Shape = make([]byte, n)
+				for k := range f.Shape {
+					f.Shape[k] = byte(g.r.Intn(255))
+				}
+			}
 			flds = append(flds, f)
 		}
 		if cfg.syn && g.chance(0.5) {
